@@ -757,7 +757,7 @@ func writeEvidence(fileID, id, tier string, seed int, reports []*harnessReport, 
 	assumptions := []string{
 		"go/ssa (x/tools v0.29.0) builds SSA faithful to the Go spec; our interpreter's semantics of the instruction kinds used (cross-checked by native replay of end-of-path models)",
 		"z3 4.8.12 answers (unsat = holds for every value on the path); any solver error/unknown is reported INCONCLUSIVE",
-		"sequential semantics: goroutines run to completion at spawn, mutexes are held-bits; no claim about schedules",
+		"sequential semantics: goroutines run to completion at spawn (or, where a harness says so, when the spawner blocks), mutexes are held-bits; no claim about arbitrary schedules",
 		"linux/amd64: int is 64 bits",
 	}
 	perHarness := []map[string]interface{}{}
